@@ -232,7 +232,10 @@ def merge_integration_branches(job, wbranches):
         # The octopus merge makes sure that the merge leaves the development
         # branches self-contained.
         if job.settings.no_octopus:
-            consecutive_merge(wbranch.dst_branch, prev.dst_branch, wbranch)
+            # Merge the integration branch first: when it already contains
+            # the destination, the destination fast-forwards to the very
+            # commit that was built instead of a new merge commit.
+            consecutive_merge(wbranch.dst_branch, wbranch, prev.dst_branch)
         else:
             robust_merge(wbranch.dst_branch, prev.dst_branch, wbranch)
         prev = wbranch
